@@ -18,7 +18,7 @@
 //   W:i:k:j:m   tag k of cache i = Move(copy of tag m of cache j)      (TagBit move assignment: Clear + adopt)
 //   O:i:k   push a copy of tag k of cache i at the end of cache i (element of the growing array itself)
 //   N:i:k   TagBit::Clear + Make...Tag a second time on a local copy of tag k (documented reuse protocol)
-//   S:t     TemplateCore::ParseExpressions over template t as an expression text (QExpression lists)
+//   S:t     TemplateCore::ParseExpressions over template t as an expression text (QExpression lists: copy, move, assign)
 #include "common.hpp"
 #include "JSON.hpp"
 #include "Template.hpp"
@@ -145,7 +145,19 @@ static std::string run_case(const std::string &script, const std::vector<vf::u64
                 }
             }
         }
-        else if (nm == "S") { const unsigned t = i & 1; auto ex = Core::ParseExpressions(tp[t], tl[t]); auto ex2 = ex; auto ex3 = Memory::Move(ex); ex = ex2; (void)ex3; }
+        else if (nm == "S") {
+            // the expression text is followed by one more unit (as inside a tag, where the closing quote / brace follows):
+            // getOperation's one-unit look-ahead at the last operator is C01's subject (finding D80), not a lifetime question
+            std::vector<vf::u64> e = (i & 1) ? t1 : t0;
+            const SizeT          n = (SizeT)e.size();
+            e.push_back('}');
+            vf::ExactBuf<C> eb(e);
+            auto            ex  = Core::ParseExpressions((const C *)eb.p, n);
+            auto            ex2 = ex;
+            auto            ex3 = Memory::Move(ex);
+            ex                  = ex2;
+            (void)ex3;
+        }
         else return "BADOP";
         ++done;
     }
